@@ -37,7 +37,11 @@ func verifScriptReadX(K, L int, simple bool) {
 					switch kind {
 					case 0: // an ordinary record of a listed watch
 						verifAssume(r.mask&verifHousekeeping == 0 && r.cookie == 0 && verifInotifyOps(r.mask) != 0)
-						verifAssume(uint32(r.wd) == verifTable[0].wd || uint32(r.wd) == verifTable[1].wd)
+						if verifParam("LEAN") != 0 {
+							verifAssume(uint32(r.wd) == verifTable[0].wd && r.ln == 0) // events on the watched path itself
+						} else {
+							verifAssume(uint32(r.wd) == verifTable[0].wd || uint32(r.wd) == verifTable[1].wd)
+						}
 					case 1: // housekeeping: must stay silent whatever the buffer size
 						verifAssume(r.mask == unix.IN_IGNORED && r.ln == 0 && uint32(r.wd) == verifTable[1].wd)
 					case 2: // a record whose watch is gone
@@ -160,6 +164,12 @@ func H_close_protocol() {
 	verifQuiesce()
 	verifAssert(w.Close() == nil, "Close returns")
 	sendsAtClose := verifChanStat(w.Events, "sends")
+	// what the Watcher had absorbed before Close is still delivered, intact, after it
+	after := 0
+	for range w.Events {
+		after++
+	}
+	verifAssert(got+after == sendsAtClose, "events that were sent (buffered) before Close must still be received after it: Close must not discard them")
 	verifCheckClosed(w)
 	verifAssert(verifChanStat(w.Events, "sends") == sendsAtClose, "nothing is sent on Events after Close has returned")
 	verifAssert(verifChanStat(w.Events, "senders") <= 1 && verifChanStat(w.Errors, "senders") <= 1, "only the reader goroutine sends")
